@@ -64,8 +64,9 @@ def main(tier='quick'):
                         else:
                             plan.append(('store', rng.choice([7, 9]), rng.choice(K.MIDS), 1))
                     oc = [rng.choice([0, 0xB000, 0xA700, 'EHE']) for _ in range(n)]
-                    tr, extra = K.run_get_scu(rng, rng.choice(K.MIDS), rng.choice([1, 3, 5]), plan, oc, pol)
-                    add(tr, extra, {'svc': 'qr_get_scu', 'plan': [p[0] for p in plan], 'outcomes': oc, 'policy': str(pol)})
+                    fin = rng.choice([0x0000, 0xB000, 0xA702, 0xFE00, 0xC000])       # the final response ends the operation whatever its class
+                    tr, extra = K.run_get_scu(rng, rng.choice(K.MIDS), rng.choice([1, 3, 5]), plan, oc, pol, final=fin)
+                    add(tr, extra, {'svc': 'qr_get_scu', 'plan': [p[0] for p in plan], 'outcomes': oc, 'policy': str(pol), 'final': fin})
     res, stats = tlc.validate_traces('Trace_Services', 'Trace_Services.cfg', traces, chunk=5000)
     for tr, r, meta in zip(traces, res, metas):
         if r['ok']:
